@@ -293,6 +293,23 @@ class Cloner:
             list["_core.Value"], [self._get_value(v) for v in graph.outputs]
         )
 
+        # A graph names the unnamed nodes and values that join it. Where the original
+        # is unnamed (a name was taken away again), so is the copy. Naming a value renames
+        # its constant tensor, which is shared with the original: the unnamed copies get
+        # their tensor only after the names have been reset
+        unnamed_values = [
+            new_value
+            for value, new_value in zip(graph.inputs, input_values)
+            if value.name is None
+        ]
+        for node, new_node in zip(graph, nodes):
+            for output, new_output in zip(node.outputs, new_node.outputs):
+                if output.name is None:
+                    unnamed_values.append(new_output)
+        shared_tensors = [new_value.const_value for new_value in unnamed_values]
+        for new_value in unnamed_values:
+            new_value.const_value = None
+
         new_graph = _core.Graph(
             input_values,
             output_values,
@@ -302,17 +319,12 @@ class Cloner:
             opset_imports=graph.opset_imports.copy(),
             name=graph.name,
         )
-        # A graph names the unnamed nodes and values that join it. Where the original
-        # is unnamed (a name was taken away again), so is the copy
-        for value, new_value in zip(graph.inputs, input_values):
-            if value.name is None:
-                new_value.name = None
         for node, new_node in zip(graph, nodes):
             if node.name is None:
                 new_node.name = None
-            for output, new_output in zip(node.outputs, new_node.outputs):
-                if output.name is None:
-                    new_output.name = None
+        for new_value, tensor in zip(unnamed_values, shared_tensors):
+            new_value.name = None
+            new_value.const_value = tensor
         if graph.metadata_props:
             new_graph.metadata_props.update(graph.metadata_props)
         if graph.meta:
